@@ -223,6 +223,21 @@ Theorem C07_return_stage_check_dropped_refuted :
   site_result_x_gen (Some 3%nat) 4 (XName 2 0) (TOth 12) (LkOver convs) (LkOver reds) = mkXres (Some 20) None MOk (Some 3%nat).
 Proof. exact return_stage_check_dropped_refuted. Qed.
 
+(* sibling regions (generate statements) and context declarations, whole programs *)
+Example C07_example_sibling_regions :
+  family_program prog_siblings = true /\
+  spec_program prog_siblings = [(1, ADecl 1); (2, ADecl 6); (3, ADecl 7); (4, ADecl 3); (5, ADecl 4); (6, ADecl 9); (7, ADecl 10); (8, ADecl 11); (9, AUndeclared); (10, AUndeclared); (11, ADecl 13); (12, ADecl 13)] /\
+  option_map fst (observed cfg_now prog_siblings) = Some [(1, Some 1, MOk); (2, Some 6, MOk); (3, Some 7, MOk); (4, Some 3, MOk); (5, Some 4, MOk); (6, Some 9, MOk); (7, Some 10, MOk); (8, Some 11, MOk); (9, None, MUndeclared); (10, None, MUndeclared); (11, Some 13, MOk); (12, Some 13, MOk)] /\
+  trace_disciplined cfg_now prog_siblings = Some true.
+Proof. exact example_siblings. Qed.
+
+Example C07_example_context_declarations :
+  family_program prog_contexts = true /\
+  spec_program prog_contexts = [(1, AConflict); (2, ADecl 4); (3, ADecl 5); (4, AConflict); (5, AConflict); (6, ADecl 9); (7, AConflict); (8, ADecl 4); (9, ADecl 5); (10, AConflict); (11, AConflict); (12, ADecl 1); (13, AConflict); (14, AConflict)] /\
+  option_map fst (observed cfg_now prog_contexts) = Some [(1, None, MConflict); (2, Some 4, MOk); (3, Some 5, MOk); (4, None, MConflict); (5, None, MConflict); (6, Some 9, MOk); (7, None, MConflict); (8, Some 4, MOk); (9, Some 5, MOk); (10, None, MConflict); (11, None, MConflict); (12, Some 1, MOk); (13, None, MConflict); (14, None, MConflict)] /\
+  trace_disciplined cfg_now prog_contexts = Some true.
+Proof. exact example_contexts. Qed.
+
 Check C07_cache_coherent :
   forall t d s rs,
     disciplined [] (t ++ [OLookup d]) -> run cfg_now [] t = Some (s, rs) ->
@@ -256,4 +271,6 @@ Print Assumptions C07_example_nesting.
 Print Assumptions C07_example_homograph_pair.
 Print Assumptions C07_example_overloaded_literals.
 Print Assumptions C07_example_overloaded_actuals.
+Print Assumptions C07_example_sibling_regions.
+Print Assumptions C07_example_context_declarations.
 Print Assumptions C07_return_stage_check_dropped_refuted.
